@@ -1,0 +1,291 @@
+/* This Source Code Form is subject to the terms of the Mozilla Public
+ * License, v. 2.0. If a copy of the MPL was not distributed with this
+ * file, You can obtain one at http://mozilla.org/MPL/2.0/. */
+
+//! Verification hooks for the VM and its collector (cargo feature `verif` only).
+//!
+//! * schedulable collector: `gc_start`, `gc_mark_one`, `gc_sweep_one` call the REAL
+//!   `start_mark_phase` / `process_gray` / `sweep` with a batch of one object;
+//! * allocation sequence numbers and quarantine-instead-of-free, so that a use of a reclaimed
+//!   object is detected deterministically instead of being undefined behaviour;
+//! * `reachable_reclaimed`: an independent walk from every root of every thread (deliberately
+//!   NOT the collector's own marking code) that reports reachable objects that were reclaimed;
+//! * read-only state fingerprints and statistics.
+
+use super::*;
+
+#[derive(Clone, Copy)]
+pub(crate) struct HeaderExtra {
+    pub(crate) seq: u32,
+    pub(crate) freed: bool,
+}
+
+impl HeaderExtra {
+    pub(crate) fn new() -> Self {
+        HeaderExtra {
+            seq: crate::verif::next_alloc_seq(),
+            freed: false,
+        }
+    }
+}
+
+/// Called at the top of `ObjectHeader::dealloc`. In quarantine mode the object is poisoned and
+/// kept (the heap accounting is still updated); returns true if the real free must be skipped.
+pub(super) fn quarantine_instead_of_free(h: &mut ObjectHeader, heap_size: &mut usize) -> bool {
+    if !crate::verif::quarantine() {
+        return false;
+    }
+    if h.verif.freed {
+        panic!("VERIF: double free of object #{}", h.verif.seq);
+    }
+    *heap_size -= h.nbytes();
+    h.verif.freed = true;
+    true
+}
+
+/// Called by every typed access to a `Value`.
+pub(super) fn check_live(v: &Value) {
+    if v.1.is_pointer() && crate::verif::quarantine() {
+        let h = unsafe { &*(v.0 as *const ObjectHeader) };
+        if h.verif.freed {
+            panic!("VERIF: use of reclaimed object #{}", h.verif.seq);
+        }
+    }
+}
+
+#[derive(Clone, Copy, Debug, PartialEq, Eq, Hash)]
+pub enum GcPhase {
+    Idle,
+    Marking,
+    Sweeping,
+}
+
+impl VmGreenThread {
+    pub fn verif_gc_phase(&self) -> GcPhase {
+        match self.gc_state {
+            GcState::Idle => GcPhase::Idle,
+            GcState::Marking => GcPhase::Marking,
+            GcState::Sweeping { .. } => GcPhase::Sweeping,
+        }
+    }
+
+    /// Start a collection cycle (the real root scan). Only meaningful when Idle.
+    pub fn verif_gc_start(&mut self) -> bool {
+        if self.gc_state != GcState::Idle {
+            return false;
+        }
+        self.start_mark_phase();
+        true
+    }
+
+    /// One marking increment of exactly one grey object (or the Marking -> Sweeping transition
+    /// when the grey stack is empty), through the real `process_gray`.
+    pub fn verif_gc_mark_one(&mut self) -> bool {
+        if self.gc_state != GcState::Marking {
+            return false;
+        }
+        let mut batch = 1usize;
+        self.process_gray(&mut batch);
+        true
+    }
+
+    /// One sweep increment of exactly one object (or the Sweeping -> Idle transition), through
+    /// the real `sweep`.
+    pub fn verif_gc_sweep_one(&mut self) -> bool {
+        if !matches!(self.gc_state, GcState::Sweeping { .. }) {
+            return false;
+        }
+        self.sweep(1);
+        true
+    }
+
+    /// Canonical fingerprint of the collector-relevant state of this thread:
+    /// phase, polarity, sweep index, heap_list order with colour and freed flag per object
+    /// (objects identified by allocation sequence number), grey stack.
+    pub fn verif_gc_key(&self) -> Vec<u32> {
+        let mut k = vec![];
+        match self.gc_state {
+            GcState::Idle => k.push(0),
+            GcState::Marking => k.push(1),
+            GcState::Sweeping { index } => {
+                k.push(2);
+                k.push(index as u32);
+            }
+        }
+        k.push(self.gc_visited as u32);
+        k.push(self.heap_list.len() as u32);
+        for h in &self.heap_list {
+            let h = unsafe { &**h };
+            k.push(h.verif.seq);
+            k.push((h.visited == self.gc_visited) as u32 | ((h.verif.freed as u32) << 1));
+        }
+        k.push(u32::MAX);
+        for h in &self.gray_stack {
+            let h = unsafe { &**h };
+            k.push(h.verif.seq);
+        }
+        k
+    }
+
+    /// Cheap fingerprint of the mutator state (pc, stack depth, call depth, flags).
+    pub fn verif_mutator_key(&self) -> (u32, usize, usize, bool, bool) {
+        (
+            self.pc.0,
+            self.value_stack.len(),
+            self.call_stack.len(),
+            self.done,
+            self.error.is_some(),
+        )
+    }
+
+    pub fn verif_stack_depth(&self) -> usize {
+        self.value_stack.len()
+    }
+    pub fn verif_call_depth(&self) -> usize {
+        self.call_stack.len()
+    }
+    pub fn verif_heap_size(&self) -> usize {
+        self.heap_size
+    }
+    pub fn verif_live_objects(&self) -> usize {
+        self.heap_list.len()
+    }
+    pub fn verif_is_main(&self) -> bool {
+        self.is_main
+    }
+    pub fn verif_is_done(&self) -> bool {
+        self.done
+    }
+    pub fn verif_pc(&self) -> u32 {
+        self.pc.0
+    }
+    /// the instruction about to execute, in Debug form (e.g. "ArrayPop(Top, Top)")
+    pub fn verif_next_instr(&self) -> String {
+        match self.shared.program.get(self.pc.get()) {
+            Some(i) => format!("{i:?}"),
+            None => "<end>".into(),
+        }
+    }
+    /// allocation numbers of the objects owned by this thread that are not reclaimed
+    pub fn verif_heap_seqs(&self) -> Vec<u32> {
+        self.heap_list
+            .iter()
+            .map(|h| unsafe { &**h })
+            .filter(|h| !h.verif.freed)
+            .map(|h| h.verif.seq)
+            .collect()
+    }
+
+    fn verif_roots(&self) -> Vec<Value> {
+        let mut r: Vec<Value> = self.value_stack.clone();
+        r.push(self.string_operand1);
+        r.push(self.string_operand2);
+        r
+    }
+}
+
+/// Independent reachability walk. Returns (reachable object seqs, reachable-but-reclaimed seqs).
+fn walk(roots: Vec<Value>) -> (Vec<u32>, Vec<u32>) {
+    let mut seen: std::collections::HashSet<usize> = std::collections::HashSet::new();
+    let mut reach = vec![];
+    let mut bad = vec![];
+    let mut work = roots;
+    while let Some(v) = work.pop() {
+        if !v.1.is_pointer() {
+            continue;
+        }
+        let addr = v.0 as usize;
+        if addr == 0 || !seen.insert(addr) {
+            continue;
+        }
+        let h = unsafe { &*(addr as *const ObjectHeader) };
+        if h.no_gc {
+            continue;
+        }
+        reach.push(h.verif.seq);
+        if h.verif.freed {
+            bad.push(h.verif.seq);
+            // quarantined memory is intact, but do not look through a reclaimed object
+            continue;
+        }
+        match h.kind {
+            ObjectKind::String => {}
+            ObjectKind::Enum => {
+                let o = unsafe { &*(addr as *const EnumObject) };
+                work.push(o.val);
+            }
+            ObjectKind::Struct => {
+                let o = unsafe { &*(addr as *const StructObject) };
+                work.extend(o.get_fields().iter().copied());
+            }
+            ObjectKind::Array => {
+                let o = unsafe { &*(addr as *const ArrayObject) };
+                work.extend(o.data.iter().copied());
+            }
+            ObjectKind::Channel => {
+                let o = unsafe { &*(addr as *const ChannelObject) };
+                let q = o.data.lock().unwrap();
+                work.extend(q.iter().copied());
+            }
+        }
+    }
+    (reach, bad)
+}
+
+impl Runtime {
+    fn verif_all_threads(&self) -> impl Iterator<Item = &VmGreenThread> {
+        self.run_queue
+            .iter()
+            .map(|b| b.as_ref())
+            .chain(self.finished_main_thread.as_deref())
+    }
+
+    /// Objects reachable from any root of any live thread (operand stacks, in-flight string
+    /// operands, and transitively struct fields, array elements, enum payloads, closure captures
+    /// and channel queues) that have been reclaimed. Empty = the invariant holds.
+    pub fn verif_reachable_reclaimed(&self) -> Vec<u32> {
+        let mut roots = vec![];
+        for t in self.verif_all_threads() {
+            if t.done && !t.is_main {
+                continue;
+            }
+            roots.extend(t.verif_roots());
+        }
+        let (_, mut bad) = walk(roots);
+        bad.sort();
+        bad
+    }
+
+    /// Allocation numbers of all objects reachable from the roots of thread `id`.
+    pub fn verif_reachable_from(&self, id: u64) -> Vec<u32> {
+        let mut roots = vec![];
+        for t in self.verif_all_threads() {
+            if t.id() == id {
+                roots.extend(t.verif_roots());
+            }
+        }
+        let (mut r, _) = walk(roots);
+        r.sort();
+        r
+    }
+
+    pub fn verif_threads(&self) -> Vec<&VmGreenThread> {
+        self.verif_all_threads().collect()
+    }
+
+    pub fn verif_thread_mut(&mut self, id: u64) -> Option<&mut VmGreenThread> {
+        self.run_queue
+            .iter_mut()
+            .map(|b| b.as_mut())
+            .find(|t| t.id() == id)
+    }
+
+    /// ids of the threads in run-queue order
+    pub fn verif_queue_ids(&self) -> Vec<u64> {
+        self.run_queue.iter().map(|t| t.id()).collect()
+    }
+
+    pub fn verif_main_finished(&self) -> bool {
+        self.finished_main_thread.is_some()
+    }
+}
